@@ -193,6 +193,48 @@ let rec dump_node (b : Buffer.t) (n : M.anode) : unit =
   | M.ALeaf (pos, M.LComment v) -> Buffer.add_string b (Printf.sprintf "C(%d,%s)" (int_of_z pos) (show_str v))
   | M.ALeaf (pos, M.LPI (t, d)) -> Buffer.add_string b (Printf.sprintf "P(%d,%s,%s)" (int_of_z pos) (show_str t) (show_str d))
 
+(* ---------- Unmarshal targets ---------- *)
+let rec gty_of_sx = function
+  | A "str" -> M.TStr | A "bool" -> M.TBool | A "other" -> M.TOther
+  | L [A "num"; A "f32"] -> M.TNum M.KF32
+  | L [A "num"; A "f64"] -> M.TNum M.KF64
+  | L [A "num"; A "i"; bits; sg] -> M.TNum (M.KInt (z_of_int (int_of_sx bits), int_of_sx sg = 1))
+  | L [A "ptr"; t] -> M.TPtr (gty_of_sx t)
+  | L [A "slice"; t] -> M.TSlice (gty_of_sx t)
+  | L (A "struct" :: fs) ->
+      M.TStruct (List.map (function
+        | L [ex; tag; t] ->
+            let tg = (match tag with
+                      | A "notag" -> M.NoTag | A "badtag" -> M.BadTag
+                      | L [A "tag"; e] -> M.Tag (expr_of_sx e)
+                      | _ -> failwith "tag") in
+            ((int_of_sx ex = 1, tg), gty_of_sx t)
+        | _ -> failwith "field") fs)
+  | _ -> failwith "gty"
+
+let rec gval_of_sx = function
+  | L [A "s"; v] -> M.GStr (str_of_sx v)
+  | L [A "b"; A "1"] -> M.GBool true
+  | L [A "b"; A "0"] -> M.GBool false
+  | L [A "n"; A h] -> M.GNum (M.f_of_bits (z_of_hex h))
+  | A "nilptr" -> M.GPtr None
+  | L [A "ptr"; v] -> M.GPtr (Some (gval_of_sx v))
+  | L (A "slice" :: vs) -> M.GSlice (List.map gval_of_sx vs)
+  | L (A "struct" :: vs) -> M.GStruct (List.map gval_of_sx vs)
+  | A "other" -> M.GOther
+  | _ -> failwith "gval"
+
+let rec show_gval = function
+  | M.GStr v -> "s[" ^ show_str v ^ "]"
+  | M.GBool b -> if b then "b1" else "b0"
+  | M.GNum x -> "n" ^ show_num x
+  | M.GUnspec -> "u"
+  | M.GPtr None -> "nil"
+  | M.GPtr (Some v) -> "&" ^ show_gval v
+  | M.GSlice l -> "[" ^ String.concat "," (List.map show_gval l) ^ "]"
+  | M.GStruct l -> "{" ^ String.concat "," (List.map show_gval l) ^ "}"
+  | M.GOther -> "o"
+
 (* ---------- commands ---------- *)
 let docs : (int, M.anode) Hashtbl.t = Hashtbl.create 16
 
@@ -273,6 +315,22 @@ let handle (line : string) : string =
        | M.HError -> "E"
        | M.HPanicked -> "PANIC"
        | M.HNoFuel -> "NOFUEL")
+  | L [A "unm"; id; root; L nss; L vars; L funs; result; target] ->
+      let d = Hashtbl.find docs (int_of_sx id) in
+      let en = { M.e_doc = d; M.e_root = path_of_sx root;
+                 M.e_ns = List.map (function L [A "ns"; a; b] -> (str_of_sx a, str_of_sx b) | _ -> failwith "ns") nss;
+                 M.e_vars = List.map (function L [A "v"; a; b; v] -> (qname_of a b, value_of_sx v) | _ -> failwith "var") vars;
+                 M.e_funs = List.map (function L [A "fn"; a; b; f] -> (qname_of a b, ufun_of_sx f) | _ -> failwith "fn") funs;
+                 M.e_asis = false } in
+      let tg = (match target with
+                | A "nil" -> M.TgNil
+                | L [A "tv"; t; v] -> M.TgVal (gty_of_sx t, gval_of_sx v)
+                | _ -> failwith "target") in
+      (match M.unmarshal_top en (value_of_sx result) tg with
+       | M.UOk g -> "OK " ^ show_gval g
+       | M.UErr -> "E"
+       | M.UPanic -> "PANIC"
+       | M.UFuel -> "FUEL")
   | L [A "sv"; id; p] -> "S " ^ show_str (M.string_value (Hashtbl.find docs (int_of_sx id)) (path_of_sx p))
   | L [A "tostr"; A h] -> "S " ^ show_str (M.num_to_str (M.f_of_bits (z_of_hex h)))
   | L [A "tonum"; v] -> "N " ^ show_num (M.str_to_num (str_of_sx v))
